@@ -416,9 +416,9 @@ func onlyExpiryOrder(a, b *chainSUT, maxH uint64) bool {
 func init() {
 	register(&Prop{
 		ID: "C02", Run: runC02, Quick: 900, Thorough: 30000, Level: "exploration",
-		Rule: "one run = drawn network + fork tree with every element-changing transaction kind + submission plan as in C01; after every step the node's served view (tip state, best index, blocks+supplements, states, raw element buckets, expiring lists, MainChain bucket) is compared with a linear twin node, with the view recorded the first time that tip was reached, and with the reference ledger (elements, leaf indices, Merkle proofs, block supplement); 80% of runs give every v1 contract a unique window end (order-safe), 20% stress several contracts per height; distinct = abstract trace (reorg depth bucket, regimes); non-trivial = at least one reorg reverting blocks",
-		Real: []string{"chain.Manager", "chain.DBStore (node under test and linear twin)"},
-		Stub: []string{"disk: simdisk.DB"},
+		Rule:        "one run = drawn network + fork tree with every element-changing transaction kind + submission plan as in C01; after every step the node's served view (tip state, best index, blocks+supplements, states, raw element buckets, expiring lists, MainChain bucket) is compared with a linear twin node, with the view recorded the first time that tip was reached, and with the reference ledger (elements, leaf indices, Merkle proofs, block supplement); 80% of runs give every v1 contract a unique window end (order-safe), 20% stress several contracts per height; distinct = abstract trace (reorg depth bucket, regimes); non-trivial = at least one reorg reverting blocks",
+		Real:        []string{"chain.Manager", "chain.DBStore (node under test and linear twin)"},
+		Stub:        []string{"disk: simdisk.DB"},
 		Assumptions: []string{"Tree-bucket nodes above the current leaf count are not compared (documented as never read); every proof the store can serve is compared instead", "the order of the expiring lists of a linear node is taken as the consensus-relevant truth"},
 	})
 }
